@@ -41,8 +41,10 @@ THEOREMS = [P + n for n in (
     'nanMean_entry',
     'alignRow_mask', 'alignRow_positive_multiple', 'rescale_fixedpoint_common_scale',
     'rescaleStep_estimate_of_proportional', 'rescaleWeights_mask', 'nanMeanEntry_const',
+    'rescaleLoop_output_is_alignment', 'rescale_keeps_nan_pattern',
     'nanMeanFirst_common_mask', 'nanMeanFirstEntry_some_iff', 'nanRank_eq', 'normCosO_eq', 'normCorrO_eq',
     'pool_common_mask_plain', 'pool_common_mask',
+    'poolShift_pooling', 'poolShift_inferenceUtil', 'poolShift_monotone_min', 'poolRdm_common_mask',
     'regress_common_mask', 'regress_rejects_differing',
     'subsample_mask', 'bootstrap_compare_not_rejected',
 )]
@@ -61,7 +63,7 @@ RULE = ('cases come from one PRNG; kinds compare (n = 4..6 conditions, stacks of
 METHODS = ['cosine', 'corr', 'spearman', 'kendall', 'tau-a', 'rho-a', 'corr_cov', 'cosine_cov',
            'bures', 'bures_metric']
 MASKKINDS = ['none', 'common', 'bootstrap', 'partials', 'between', 'between_count', 'one_side',
-             'within', 'within_count']
+             'within', 'within_count', 'shape']
 POOL_METHODS = {'inf': ['euclid', 'cosine', 'corr', 'cosine_cov', 'corr_cov', 'spearman', 'rho-a',
                         'kendall', 'tau-b', 'tau-a', 'neg_riem_dist'],
                 'pool': ['euclid', 'cosine', 'corr', 'cosine_cov', 'corr_cov', 'spearman', 'rho-a',
@@ -69,7 +71,10 @@ POOL_METHODS = {'inf': ['euclid', 'cosine', 'corr', 'cosine_cov', 'corr_cov', 's
 FIT_METHODS = ['cosine', 'corr', 'cosine_cov', 'corr_cov']
 BRANCHES = (['method:' + m for m in METHODS] + ['mask:' + k for k in MASKKINDS] +
             ['sigma:none', 'sigma:vec', 'sigma:mat', 'fast_path_nan', 'slow_path_nan',
-             'input:array', 'input:rdms', 'input:mixed', 'rejected', 'accepted_with_nan',
+             'input:array', 'input:rdms', 'input:mixed', 'input:vector', 'rejected', 'accepted_with_nan',
+             'method:neg_riem_dist', 'slow_path_sigma_none_direct', 'direct_nan_idx_none',
+             'parse:rdms_wrapper', 'parse:shape', 'partials:auto_patterns', 'pool:zero_norm',
+             'subsample:by_none', 'subsample:scalar',
              'kind:parse', 'kind:mean', 'kind:rescale', 'kind:pool', 'kind:regress', 'kind:subsample',
              'w:none', 'w:rdm_array', 'w:rdm_desc', 'w:entry_array', 'w:entry_desc',
              'mean:all_missing_entry', 'mean:partials',
@@ -179,6 +184,11 @@ def _call(x, y, method, sigma, form):
             xa = RDMs(dissimilarities=xa)
         if form == 'rdms':
             ya = RDMs(dissimilarities=ya)
+        if form == 'vector':            # a single RDM passed as a 1-D array
+            if len(x) == 1:
+                xa = xa[0]
+            if len(y) == 1:
+                ya = ya[0]
         return _out(_cmp.compare(xa, ya, method=method, sigma_k=_sigma_np(sigma)))
     return _quiet(go)
 
@@ -274,14 +284,16 @@ def _compare_case(rng, method, maskkind, nmax):
     nx, ny = rng.choice([1, 2, 2, 3]), rng.choice([1, 2, 3])
     styles = ['ties', 'pos', 'quarters', 'distinct', 'distinct', 'neg']
     case = {'kind': 'compare', 'method': method, 'n': n, 'maskkind': maskkind,
-            'form': rng.choice(['array', 'rdms', 'rdms', 'mixed'])}
+            'form': rng.choice(['array', 'rdms', 'rdms', 'mixed', 'vector'])}
+    if case['form'] == 'vector':
+        nx, ny = rng.choice([(1, 1), (1, 2), (2, 1)])
     if method in ('corr_cov', 'cosine_cov'):
         case['sigma'] = _sigma(rng, n, rng.choice(['none', 'none', 'vec', 'mat']))
     else:
         case['sigma'] = None
 
     def stack(k, mm, nn):
-        if method.startswith('bures'):
+        if method.startswith('bures') or method == 'neg_riem_dist':
             return [_euclid(rng, nn) for _ in range(k)]
         return [_vector(rng, mm, rng.choice(styles)) for _ in range(k)]
 
@@ -309,6 +321,13 @@ def _compare_case(rng, method, maskkind, nmax):
         y[rng.randrange(ny)] = list(x[rng.randrange(nx)])
     if maskkind == 'none':
         pass
+    elif maskkind == 'shape':
+        # the second stack has one condition more (or less): 'must be RDMs of equal shape'
+        n2 = n + rng.choice([-1, 1])
+        y = stack(ny, n2 * (n2 - 1) // 2, n2)
+        if rng.random() < 0.5:
+            mk = _mask(rng, m, 3, max_drop=2)
+            x = [_apply(mk, r) for r in x]
     else:
         mask = _mask(rng, m, 3, max_drop=m - 3)
         if maskkind == 'common':
@@ -342,7 +361,7 @@ def _compare_case(rng, method, maskkind, nmax):
 
 def _parse_case(rng):
     c = _compare_case(rng, 'cosine', rng.choice(['none', 'common', 'common', 'between', 'between_count',
-                                                 'one_side', 'within', 'within_count']), 5)
+                                                 'one_side', 'within', 'within_count', 'shape']), 5)
     return {'kind': 'parse', 'x': c['x'], 'y': c['y'], 'maskkind': c['maskkind']}
 
 
@@ -366,7 +385,8 @@ def _mean_case(rng, wkind):
             pidx = rng.sample(range(n), kk)
             parts.append({'pidx': pidx, 'vec': _vector(rng, kk * (kk - 1) // 2, rng.choice(['pos', 'quarters']))})
         case['parts'] = parts
-        v = [orc.expand_partial(n, p['pidx'], p['vec']) for p in parts]
+        case['auto'] = rng.random() < 0.5
+        v = _expand_parts(n, parts, case['auto'])
     else:
         v = [_vector(rng, m, rng.choice(['pos', 'quarters', 'ties'])) for _ in range(k)]
         r = rng.random()
@@ -406,7 +426,8 @@ def _rescale_case(rng, method, prop, thr):
             pidx = rng.sample(range(n), kk)
             parts.append({'pidx': pidx, 'vec': _vector(rng, kk * (kk - 1) // 2, rng.choice(['pos', 'quarters']))})
         case['parts'] = parts
-        d = [orc.expand_partial(n, p['pidx'], p['vec']) for p in parts]
+        case['auto'] = rng.random() < 0.5
+        d = _expand_parts(n, parts, case['auto'])
     else:
         d = [_vector(rng, m, rng.choice(['pos', 'quarters'])) for _ in range(k)]
         for i in range(k):
@@ -445,11 +466,19 @@ def _pool_case(rng, variant, method, maskkind):
         st = _stack_with_masks(rng, k, m, maskkind)
         if _nonconst(st):
             break
+    zero = None
+    if rng.random() < 0.2 and k >= 2:
+        # an all-zero (cosine types) or constant (correlation types) RDM: its norm is 0 and `_nonzero`
+        # keeps it a zero vector
+        i = rng.randrange(1, k)
+        cval = 0 if method.startswith('cosine') or rng.random() < 0.3 else rng.choice([1, 2, '1/2'])
+        st[i] = [None if v is None else cval for v in st[i]]
+        zero = i
     sig = None
     if variant == 'pool' and method.endswith('_cov'):
         sig = _sigma(rng, n, rng.choice(['none', 'mat', 'mat']))   # util.matrix.get_v takes no variance vector
     return {'kind': 'pool', 'variant': variant, 'method': method, 'n': n, 'sigma': sig, 'stack': st,
-            'maskkind': maskkind}
+            'maskkind': maskkind, 'zero_row': zero}
 
 
 def _well_conditioned(A, mask):
@@ -522,7 +551,10 @@ def _subsample_case(rng):
         mk = _mask(rng, m, 1)
         v = [_apply(mk, r) for r in v]
     idx = [rng.randrange(n) for _ in range(rng.randint(2, n + 1))]
-    return {'kind': 'subsample', 'n': n, 'v': v, 'idx': idx}
+    how = rng.choice(['list', 'list', 'by_none', 'scalar'])
+    if how == 'scalar':
+        idx = [rng.randrange(n)]
+    return {'kind': 'subsample', 'n': n, 'v': v, 'idx': idx, 'how': how}
 
 
 def generate(rng, tier):
@@ -535,6 +567,10 @@ def generate(rng, tier):
                 if method.startswith('bures') and mk in ('bootstrap',):
                     continue
                 yield _compare_case(rng, method, mk, nmax)
+    for _ in range(1 if quick else 6):
+        for mk in MASKKINDS:
+            if mk != 'bootstrap':
+                yield _compare_case(rng, 'neg_riem_dist', mk, 4)
     # extra weight on the whitened measures with NaNs
     for _ in range(60 if quick else 600):
         yield _compare_case(rng, rng.choice(['cosine_cov', 'corr_cov']),
@@ -581,15 +617,28 @@ def search(rng, tier):
 
 # ------------------------------------------------------------------ implementation side
 
-def _rdms_from_parts(n, parts):
-    """real from_partials on partial RDMs given as (pidx, vec)"""
+def _rdms_from_parts(n, parts, auto=False):
+    """real from_partials on partial RDMs given as (pidx, vec); `auto`: all_patterns=None (the union of
+    the partial RDMs' patterns in order of first appearance); the partial RDMs carry differing
+    descriptors so that the descriptor merging runs too"""
     from rsatoolbox.rdm import RDMs
     labels = [f'c{i}' for i in range(n)]
     lst = []
-    for p in parts:
+    for k, p in enumerate(parts):
         lst.append(RDMs(dissimilarities=_arr([p['vec']]),
+                        descriptors={'subj': k, 'study': 'a'} if k % 2 == 0 else {'subj': k, 'study': 'a', 'extra': 1},
+                        rdm_descriptors={'run': [k]},
                         pattern_descriptors={'conds': [labels[i] for i in p['pidx']]}))
-    return _comb.from_partials(lst, all_patterns=labels)
+    return _comb.from_partials(lst, all_patterns=None if auto else labels)
+
+
+def _expand_parts(n, parts, auto):
+    """expected stack of from_partials (own transcription)"""
+    if not auto:
+        return [orc.expand_partial(n, p['pidx'], p['vec']) for p in parts]
+    order = list(dict.fromkeys(i for p in parts for i in p['pidx']))
+    pos = {i: k for k, i in enumerate(order)}
+    return [orc.expand_partial(len(order), [pos[i] for i in p['pidx']], p['vec']) for p in parts]
 
 
 def _nnls(a, y, ridge, V):
@@ -626,6 +675,22 @@ def _impl_compare(case):
     else:
         r = _call(case['x'], case['y'], case['method'], case['sigma'], case['form'])
         r = r if isinstance(r, dict) else {'res': r}
+        if case['method'] in ('cosine_cov', 'corr_cov') and 'res' in r:
+            def direct():
+                v1, v2, idx = _cmp._parse_input_rdms(_arr(case['x']), _arr(case['y']))
+                if case['method'] == 'corr_cov':
+                    v1 = v1 - v1.mean(1, keepdims=True)
+                    v2 = v2 - v2.mean(1, keepdims=True)
+                d = {}
+                if case['sigma'] is None:
+                    # the slow path is never taken by compare() for sigma_k=None: call it directly
+                    d['slow_direct'] = _out(_cmp._cosine_cov_weighted_slow(v1, v2, None, idx))
+                if case['maskkind'] == 'none':
+                    d['direct_none'] = _out(_cmp._cosine_cov_weighted(v1, v2, _sigma_np(case['sigma']), None))
+                return d
+            d = _quiet(direct)
+            if 'exc' not in d:
+                r.update(d)
     out.update(r)
     return out
 
@@ -639,7 +704,11 @@ def _impl_parse(case):
             m = np.asarray(m)
             return {'x': _out(a), 'y': _out(b), 'mask': [bool(t) for t in (m[0] if mask_row else m)]}
         return _quiet(go)
-    return {'compare': one(_cmp._parse_input_rdms, False), 'utils': one(_rdu._parse_nan_vectors, True)}
+    def wrapper(a, b):
+        from rsatoolbox.rdm import RDMs
+        return _rdu._parse_input_rdms(RDMs(a), RDMs(b))
+    return {'compare': one(_cmp._parse_input_rdms, False), 'utils': one(_rdu._parse_nan_vectors, True),
+            'utils_rdms': one(wrapper, True)}
 
 
 def _impl_mean(case):
@@ -653,7 +722,7 @@ def _impl_mean(case):
         elif wk == 'entry_desc':
             rd = {'wts': _arr(w)}
         if 'parts' in case:
-            r = _rdms_from_parts(case['n'], case['parts'])
+            r = _rdms_from_parts(case['n'], case['parts'], case.get('auto', False))
             for k_, v_ in rd.items():
                 r.rdm_descriptors[k_] = v_
         else:
@@ -684,7 +753,7 @@ def _impl_rescale(case):
 
     def go():
         if 'parts' in case:
-            r = _rdms_from_parts(case['n'], case['parts'])
+            r = _rdms_from_parts(case['n'], case['parts'], case.get('auto', False))
         else:
             r = RDMs(_arr(case['d']))
         _comb._mean = counted
@@ -736,7 +805,14 @@ def _impl_subsample(case):
     from rsatoolbox.rdm import RDMs
 
     def go():
-        r = RDMs(_arr(case['v'])).subsample_pattern('index', case['idx'])
+        how = case.get('how', 'list')
+        src = RDMs(_arr(case['v']))
+        if how == 'by_none':
+            r = src.subsample_pattern(None, case['idx'])
+        elif how == 'scalar':
+            r = src.subsample_pattern('index', case['idx'][0])
+        else:
+            r = src.subsample_pattern('index', case['idx'])
         return {'v': _out(r.get_vectors())}
     return _quiet(go)
 
@@ -777,9 +853,7 @@ def _pool_wire(variant, method):
         return 'euclid', 0.0
     if method in ('spearman', 'rho-a', 'kendall', 'tau-b', 'tau-a'):
         return 'rank', 0.0
-    if variant == 'inf':
-        return ('cosine' if method.startswith('cosine') else 'corr'), 0.0
-    return method, 0.01
+    return method, (0.0 if variant == 'inf' else 0.01)
 
 
 def model_requests(case):
@@ -805,10 +879,10 @@ def model_requests(case):
                  'd': _stack_wire(case['d'], _encf), 'fuel': 3000}]
     if k == 'pool':
         pm, c = _pool_wire(case['variant'], case['method'])
-        return [{'op': 'c13.pool', 'pm': pm, 'c': fbits(c), 'n': case['n'],
+        return [{'op': 'c13.pool', 'pm': pm, 'copy': case['variant'], 'n': case['n'],
                  'sigma': _sigma_wire(case['sigma'], _encf), 'stack': _stack_wire(case['stack'], _encf)}]
     if k == 'regress':
-        base = {'op': 'c13.regress', 'method': case['method'], 'n': case['n'], 'c': fbits(0.01),
+        base = {'op': 'c13.regress', 'method': case['method'], 'n': case['n'],
                 'sigma': _sigma_wire(case['sigma'], _encf), 'A': _stack_wire(case['A'], _encf),
                 'data': _stack_wire(case['data'], _encf)}
         reqs = [dict(base, ridge=_encf(case['ridge']), normalize=case['normalize'])]
@@ -945,6 +1019,14 @@ def compare(case, impl, model):
         if 'exc' in coded:
             return _cmp_exc(impl, coded['exc'])
         if _bures_model(coded['res']):
+            if coded['res'][0][0] == 'reduced':
+                # not modelled beyond the parser (Nelder-Mead): what the same call returns on the reduced arrays
+                exp = _call([[v for v in r if v is not None] for r in case['x']],
+                            [[v for v in r if v is not None] for r in case['y']], case['method'], None, 'array')
+                if isinstance(exp, dict) or 'exc' in impl:
+                    return None if impl.get('exc') == (exp.get('exc') if isinstance(exp, dict) else None) \
+                        else f'impl {impl.get("exc", "values")}, reduced arrays give {exp if isinstance(exp, dict) else "values"}'
+                return _diff_matrix(impl['res'], exp, 1e-6, 1e-8, False)
             return _cmp_exc(impl, 'ValueError')
         if 'exc' in impl:
             return f'impl raised {impl["exc"]}, model gives values'
@@ -957,9 +1039,17 @@ def compare(case, impl, model):
             d = _diff_matrix(coded['res'], model['slow']['res'], 1e-7, 1e-9, True)
             if d:
                 return f'model: fast path with missing values differs from the V sub-block formula: {d}'
+            if 'slow_direct' in impl:
+                d = _diff_matrix(impl['slow_direct'], model['slow']['res'], 2e-4, 2e-4, True)
+                if d:
+                    return f'_cosine_cov_weighted_slow(sigma_k=None, nan_idx) differs from the V sub-block formula: {d}'
+        if 'direct_none' in impl:
+            d = _diff_matrix(impl['direct_none'], coded['res'], 2e-4, 2e-4, und)
+            if d:
+                return f'_cosine_cov_weighted(nan_idx=None) differs: {d}'
         return None
     if k == 'parse':
-        for which in ('compare', 'utils'):
+        for which in ('compare', 'utils', 'utils_rdms'):
             r, c = impl[which], model['coded']
             if 'exc' in c:
                 d = _cmp_exc(r, c['exc'])
@@ -1055,6 +1145,10 @@ def features(case, impl):
             if nan and case['maskkind'] in ('common', 'bootstrap', 'partials'):
                 br.append('fast_path_nan' if case['sigma'] is None else 'slow_path_nan')
         if impl is not None:
+            if 'slow_direct' in impl and nan:
+                br.append('slow_path_sigma_none_direct')
+            if 'direct_none' in impl:
+                br.append('direct_nan_idx_none')
             if 'exc' in impl:
                 br.append('rejected')
                 f['rejected'] = True
@@ -1064,6 +1158,15 @@ def features(case, impl):
         br.append('kind:' + k)
     if k == 'parse':
         f['maskkind'] = case['maskkind']
+        if impl is not None and 'utils_rdms' in impl:
+            br.append('parse:rdms_wrapper')
+        if case['maskkind'] == 'shape':
+            br.append('parse:shape')
+    if k == 'subsample':
+        if case.get('how') == 'by_none':
+            br.append('subsample:by_none')
+        if case.get('how') == 'scalar':
+            br.append('subsample:scalar')
     if k == 'mean':
         f['wkind'] = case['wkind']
         br.append('w:' + case['wkind'])
@@ -1071,11 +1174,15 @@ def features(case, impl):
             br.append('mean:all_missing_entry')
         if 'parts' in case:
             br.append('mean:partials')
+            if case.get('auto'):
+                br.append('partials:auto_patterns')
     if k == 'rescale':
         f.update(method=case['method'], proportional='prop' in case, thr=case['thr'])
         br += ['rescale:' + case['method'], 'rescale:proportional' if 'prop' in case else 'rescale:nonproportional']
         if 'parts' in case:
             br.append('rescale:partials')
+            if case.get('auto'):
+                br.append('partials:auto_patterns')
     if k == 'pool':
         f.update(method=case['method'], variant=case['variant'], maskkind=case['maskkind'],
                  sigma=_sigma_kind(case['sigma']))
@@ -1084,6 +1191,8 @@ def features(case, impl):
             br.append('pool:' + case['maskkind'])
         if case['sigma'] is not None:
             br.append('pool:cov_sigma')
+        if case.get('zero_row') is not None:
+            br.append('pool:zero_norm')
     if k == 'regress':
         f.update(method=case['method'], nn=case['nn'], mode=case['mode'], sigma=_sigma_kind(case['sigma']))
         br.append('regress:nn' if case['nn'] else 'regress:ls')
